@@ -410,9 +410,19 @@ def may_panic(an, rep, side, rule_id, min_roots=90, min_reach=100, crate=None, r
                         R.ok(sample={"fn": b.key, "call": info["key"], "discharged_by": why})
                         continue
                     counts.setdefault((owner(b), info["key"]), []).append((b, bb, t, path))
+    INDEX_KINDS = ("BoundsCheck", "<Vec<T, A> as Index<I>>::index", "<[T] as Index<I>>::index", "<Vec<T, A> as IndexMut<I>>::index_mut")
+
     def lookup(fk, kind):
         if kind == "panic":
             return PANIC_ALLOW.get(fk)
+        if kind in INDEX_KINDS:
+            # indexing a Vec (a call of Index::index) and indexing the same data as a slice (a BoundsCheck assert) are the
+            # same site in two spellings
+            for k2 in (kind,) + INDEX_KINDS:
+                e = ASSERT_ALLOW.get((fk, k2)) or SITE_ALLOW.get((fk, k2))
+                if e:
+                    return e
+            return None
         if kind.startswith(("Overflow", "Bounds", "Division", "Remainder")):
             return ASSERT_ALLOW.get((fk, kind))
         return SITE_ALLOW.get((fk, kind))
